@@ -69,6 +69,7 @@ class DISA(PartitionContainerBase):
         secondary_parttable_offset = readle(self._header[0x10:0x18])
         primary_parttable_offset = readle(self._header[0x18:0x20])
         parttable_size = readle(self._header[0x20:0x28])
+        self._parttable_size = parttable_size
 
         self._partdesc_a_offset = readle(self._header[0x28:0x30])
         self._partdesc_a_size = readle(self._header[0x30:0x38])
@@ -121,7 +122,9 @@ class DISA(PartitionContainerBase):
                 self._seek(self._parttable_offset + partdesc_offset)
                 self._file.write(partdesc)
 
-                partdesc_hash = sha256(partdesc)
+                # the header holds the hash of the whole active partition table, not only of this descriptor
+                self._seek(self._parttable_offset)
+                partdesc_hash = sha256(self._file.read(self._parttable_size))
 
                 header_ba = bytearray(self._header)
                 header_ba[0x6C:0x8C] = partdesc_hash.digest()
